@@ -165,7 +165,13 @@ class fixed_format_file(object):
             while prec > 0:
                 prec -= 1
                 valstr = ('%%%s.%d%s' % (wstr, prec, typ)) % val
-                if len(valstr) <= w: return valstr
+                if len(valstr) <= w:
+                    # rounding can carry into the exponent and shorten it (-9.99e-100
+                    # -> -1.00e-99): the value now in the field may fit with all its
+                    # decimals, and is written that way (as it would be if read and
+                    # written again):
+                    fullstr = ('%' + f) % float(valstr)
+                    return fullstr if len(fullstr) <= w else valstr
         raise ValueError("Value %s does not fit in format '%s'." % (repr(val), f))
 
     def read_values(self, linetype):
